@@ -150,7 +150,8 @@ def run_property(pid, tier, seed):
     all_targets = list(getattr(prop, 'TARGETS', []))
     targets = [t for t in all_targets if not (tier == 'quick' and t in core.HEAVY)]
     deferred = [t for t in all_targets if t not in targets]
-    obs, und, gen_s, solve_s = core.verify_targets(ld, targets, timeout_ms=getattr(prop, 'TIMEOUT_MS', 30000))
+    obs, und, gen_s, solve_s = core.verify_targets(ld, targets, timeout_ms=getattr(prop, 'TIMEOUT_MS', 30000),
+                                                   short_for=ledger)
     for t, reason in und:
         undecided.append({'clause': t, 'reason': reason})
     summ = core.summarize(obs)
